@@ -16,7 +16,7 @@ simvars == <<vars, hist>>
 
 HeldSet   == {n \in nodes : H[n] > 0}
 FromHeld  == {p \in DOMAIN E : H[p[1]] > 0}
-Rows(kd)  == {x \in DOMAIN EB : EB[x].kind = kd /\ EB[x].rc = 1}
+Rows(kd)  == {x \in DOMAIN EB : EB[x].kind = kd /\ Acc(x)}
 Maps      == {m \in DOMAIN MB : MapOK(m)}
 One(S)    == {RandomElement(S)}
 
@@ -41,8 +41,9 @@ SimMutate ==
        \/ \E a \in One(hs), b \in One(hs) : Link(b, a)
        \/ G(GOther) /\ \E a \in One(hs) : Link(a, a)
        \/ G(GOther) /\ \E a \in One(hs), t \in One(nodes) : Arm(a, t)
-       \/ \E k \in One(hs), v \in One(hs), h \in One(hs0) : MkEph(k, v, h)
-       \/ G(GOther) /\ \E k \in One(hs), v \in One(hs) : MkEph(k, v, 0)
+       \/ \E k \in One(hs), v \in One(hs), h \in One(hs0) : MkEph(k, v, h, {})
+       \/ G(GOther) /\ \E k \in One(hs), v \in One(hs) : MkEph(k, v, 0, {})
+       \/ G(GOther) /\ \E k \in One(hs), v \in One(hs0), h \in One(hs0), ws \in One(SUBSET MutBoxes) : MkEph(k, v, h, ws)
        \/ G(GOther) /\ \E h \in One(hs0) : MkWm(h)
        \/ mp # {} /\ \E m \in One(mp), k \in One(hs), v \in One(hs) : WmInsert(m, k, v)
        \/ G(GOther) /\ mp # {} /\ \E m \in One(mp), k \in One(hs) : WmRemove(m, k)
